@@ -51,7 +51,11 @@ def build(case):
     m.add_reactions(rxns)
     for rx, r in zip(rxns, case["rxns"]):
         if r["rule"] is not None:
-            rx.gene_reaction_rule = c08.canon_print(r["rule"])
+            if case.get("rule_as") == "gpr":           # the documented alternative: a GPR object assigned to Reaction.gpr
+                from cobra.core.gene import GPR
+                rx.gpr = GPR.from_string(c08.canon_print(r["rule"]))
+            else:
+                rx.gene_reaction_rule = c08.canon_print(r["rule"])
     if case.get("prelude") == "rollback" and len(rxns) >= 1:
         # an earlier block that removed reactions (and knocked a gene out) and was rolled back: the model is as before
         order = [r.id for r in m.reactions]
@@ -238,6 +242,8 @@ def cases_for_network(rng, rxns, genes, quick):
     for k, c in enumerate(out):
         if k % 3 == 1:
             c["prelude"] = "rollback"
+        if k % 4 == 2:
+            c["rule_as"] = "gpr"
     return out
 
 
